@@ -527,6 +527,19 @@ class Machine:
         elif how == 'ctor_twin':
             res = getattr(sm, TWIN[k])(o)
             want_kind = TWIN[k]
+        elif how in ('from_str_obj', 'from_str_twin', 'pos'):
+            # pass-through constructors documented as copy routes: "If the value is already a vector/Angle, a copy will be
+            # returned" (from_str), "+ on a Vector simply copies it"; matrices have none of these -> copy constructor
+            if k in MAT_K or (how == 'pos' and k not in VEC_K):
+                how = 'ctor_same'
+                res = getattr(sm, k)(o)
+            elif how == 'from_str_obj':
+                res = getattr(sm, k).from_str(o)
+            elif how == 'from_str_twin':
+                res = getattr(sm, TWIN[k]).from_str(o)
+                want_kind = TWIN[k]
+            else:
+                res = +o
         else:
             raise AssertionError(how)
         self.ctx.label(f'copy:{how}:{k}')
@@ -894,7 +907,7 @@ def cmd_any(num):
     b = st.booleans()
     vk, ak, mk, rk = st.sampled_from(VEC_K), st.sampled_from(ANG_K), st.sampled_from(MAT_K), st.sampled_from(ROT_K)
     copies = st.sampled_from(['copy', 'copy.copy', 'deepcopy', 'pickle2', 'pickle4', 'pickle5', 'freeze_thaw', 'freeze_thaw',
-                              'ctor_same', 'ctor_twin'])
+                              'ctor_same', 'ctor_twin', 'from_str_obj', 'from_str_obj', 'from_str_twin', 'pos'])
     # NB one_of() drops repeated *identical* strategy objects, so weights are given by building fresh objects.
     def matmul():
         return st.tuples(st.just('matmul'), st.sampled_from(ALL_K + ('tuple',)), rk, IDX, IDX, b)
@@ -909,7 +922,8 @@ def cmd_any(num):
     def set_():
         return st.tuples(st.just('set'), st.sampled_from(MUT_K), IDX, SMALL, num, SMALL)
 
-    mut_copies = st.sampled_from(['freeze', 'freeze', 'copy', 'copy.copy', 'deepcopy', 'pickle2', 'pickle5', 'ctor_same', 'ctor_twin'])
+    mut_copies = st.sampled_from(['freeze', 'freeze', 'copy', 'copy.copy', 'deepcopy', 'pickle2', 'pickle5', 'ctor_same', 'ctor_twin',
+                                  'from_str_obj', 'from_str_twin', 'pos'])
 
     def cycle():
         rnd = st.tuples(SMALL, SMALL, num, IDX, mut_copies)
@@ -1023,7 +1037,8 @@ _OPS = ('op:vec', 'op:ang', 'op:mat', 'op:to_angle', 'op:vec_to_angle', 'op:ang_
         'op:cross', 'op:amul', 'op:matmul', 'op:transform', 'op:cycle', 'op:poke', 'op:localise', 'op:minmax', 'op:mat1', 'op:copy', 'op:fmt')
 _MATMUL = tuple(f'{f}:{l}@{r}' for f in ('matmul', 'imatmul') for l in ALL_K + ('tuple',) for r in ROT_K)
 _COPIES = tuple(f'copy:{h}:{k}' for h in ('copy', 'copy.copy', 'deepcopy', 'pickle2', 'pickle5', 'ctor_same', 'ctor_twin') for k in ALL_K) \
-    + tuple(f'copy:freeze:{k}' for k in MUT_K) + tuple(f'copy:thaw:{k}' for k in FROZEN_K)
+    + tuple(f'copy:freeze:{k}' for k in MUT_K) + tuple(f'copy:thaw:{k}' for k in FROZEN_K) \
+    + tuple(f'copy:{h}:{k}' for h in ('from_str_obj', 'from_str_twin') for k in VEC_K + ANG_K) + ('copy:pos:Vec', 'copy:pos:FrozenVec')
 
 _CYCLES = ('freeze_again_after_setitem', 'freeze_again_after_imatmul', 'copy_again_after_setitem', 'deepcopy_again_after_setitem',
            'pickle5_again_after_setitem', 'transform_block:freeze_after_setitem', 'transform_block:freeze_after_imatmul',
